@@ -1,0 +1,9 @@
+//go:build !verif
+
+package dhcp
+
+// verifRequestGap marks the point of handleRequest between the insertion of the lease into
+// the lease table (under the lease lock) and the unlocked set-up of everything else the
+// session holds, where other packet handlers and the cleanup loop may run. It does nothing
+// unless the package is built with the verif tag (see verif_hooks_request.go).
+func (s *Server) verifRequestGap() {}
